@@ -47,6 +47,11 @@ def run(chk):
                                        max_states=8 if not thorough else 40, seed=chk.seed)
   for kk, v in h.items():
     hits[kk] = hits.get(kk, 0) + v
+  # every slice / in-place / batched transition from every list of <= 3 members (events of multi-element slice writes)
+  h = symtree_check.replay_transitions(chk, 'C09_states_l.cfg', 'C09_step_l.cfg', CLAUSES, seed=chk.seed,
+                                       max_transitions=2500 if not thorough else None)
+  for kk, v in h.items():
+    hits[kk] = hits.get(kk, 0) + v
   chk.notes['action_outcome_hits'] = dict(sorted(hits.items()))
   for need in NEED:
     chk.require(hits.get(need, 0) > 0, f'vacuous: no replayed step {need}')
